@@ -467,11 +467,19 @@ def main(tier, replay=None):
                        "array loop style read from gfq.inl per function (pre-decrement = index 0 skipped): %s"
                        % ",".join("%s:%s" % (k, "pre" if v else "post") for k, v in sorted(styles.items()))]
     # 3. fields
+    # quick: every prime power <= 1024.  thorough: every prime power <= 4096, every proper prime power (k >= 2) up to the
+    # int32_t table limit 65536, and a sample of the primes in between (python builds an independent table per field).
     limit = 1024 if tier == "quick" else 65536
     fields = []
-    for (p, k) in prime_powers(limit):
+    pps = prime_powers(limit)
+    if tier == "thorough":
+        big_primes = [pk for pk in pps if pk[1] == 1 and pk[0] > 4096]
+        rng.shuffle(big_primes)
+        keep = set(big_primes[:40])
+        pps = [pk for pk in pps if pk[0] ** pk[1] <= 4096 or pk[1] >= 2 or pk in keep]
+    for (p, k) in pps:
         q = p ** k
-        Ts = (32, 64) if (q <= 128 or tier == "thorough" and q <= 4096) else ((32,) if (p + k) % 2 else (64,))
+        Ts = (32, 64) if (q <= 128 or tier == "thorough" and q <= 1024) else ((32,) if (p + k) % 2 else (64,))
         for T in Ts:
             fields.append(FieldCase(T, "auto", p, k))
     # the fields test-ffarith builds
@@ -495,10 +503,7 @@ def main(tier, replay=None):
         m2 = [c + p * rng.range(-2, 2) for c in m]
         fields.append(FieldCase(64 if T == 32 else 32, "mod", p, k, mod=m2))
     big = [FieldCase(64, "auto", 2, 20, full=False), FieldCase(64, "auto", 4194301, 1, full=False)]
-    if tier == "thorough":
-        for f in big:
-            f.full = True
-    fields += big
+    fields += big          # GF(2^20), GF(4194301): implementation vs oracle only (no model tables)
     per = 12 if tier == "quick" else 60
     for fc in fields:
         gen_ops(rng, fc, per if fc.q <= 4096 else 3 * per, styles, tier)
@@ -507,10 +512,25 @@ def main(tier, replay=None):
     for fc in fields:
         impl_in.append(fc.field_line())
         impl_in += [l[1] for l in fc.lines]
-    rc, iout, ierr = vf.run_lines(himpl, "\n".join(impl_in) + "\n", timeout=1500)
+    rc, iout, ierr = vf.run_lines(himpl, "\n".join(impl_in) + "\n", timeout=(300 if tier == "quick" else 1500))
     if rc != 0 or len(iout) != len(impl_in):
-        chk.broke("implementation harness failed (rc=%s, %d/%d lines)" % (rc, len(iout), len(impl_in)), ierr[-2000:])
-        return chk.finish()
+        # the library crashed or hung on the line after the last answered one: that line is the failing input
+        n = len(iout)
+        fl = [l for l in impl_in[:n + 1] if l.startswith("field")]
+        chk.fail_input("GFqDom (crash or hang inside the library)", "crash" if rc != 124 else "hang",
+                       {"field": fl[-1] if fl else None, "line": impl_in[n] if n < len(impl_in) else None},
+                       "an answer", "rc=%s after %d/%d lines" % (rc, n, len(impl_in)), ierr[-500:])
+        # the fields answered completely before that are still compared (they usually show the element-level cause)
+        done, pos0 = [], 0
+        for fc in fields:
+            if pos0 + 1 + len(fc.lines) <= n:
+                done.append(fc)
+            pos0 += 1 + len(fc.lines)
+            if pos0 > n:
+                break
+        fields = done
+        if not fields:
+            return chk.finish()
     # 5. the model on the same fields, built from the (f, g) the implementation reports
     dist_ext = {}
     pos = 0
@@ -646,7 +666,7 @@ def main(tier, replay=None):
             mpos += 1 + nm
             ncorr += 1
             mh = mt[mt.index("H") + 1: mt.index("H") + 4] if "H" in mt else None
-            if mt[:4] != t[:4] or mh != ihash:
+            if (mt[:4] != t[:4] or mh != ihash) and exp_desc == got_desc and (ohash is None or ohash == ihash):
                 chk.broke("correspondence: tables of the model differ from the implementation's for %s (f=%d g=%d): model %s impl %s"
                           % (fname, fc.irred, fc.g, " ".join(mt[:8]), " ".join(t[:8])))
             if "T" in mt and "T" in t and mt[mt.index("T"):] != t[t.index("T"):]:
@@ -676,17 +696,17 @@ def main(tier, replay=None):
                     r = int(got)
                 except ValueError:
                     r = None
-                if mg is not None:
-                    ncorr += 1
-                    if mg.strip() != got.strip():
-                        chk.broke("correspondence model/implementation differs on %s '%s': model=%s impl=%s" % (fname, il, mg, got))
-                if exp is None:
-                    continue            # division by zero: unspecified, only the correspondence is compared
                 obs = val(r) if r is not None else None
-                if obs != exp:
+                bad = exp is not None and obs != exp
+                if bad:
                     chk.fail_input("GFqDom::" + v, "scalar", case, "rep of %s" % P.num(exp), got,
                                    "image of the result differs from polynomial arithmetic modulo f")
-                if mg is not None and mg.lstrip("-").isdigit() and val(int(mg)) != exp:
+                if mg is not None:
+                    ncorr += 1
+                    # (division by zero is unspecified: only the correspondence is compared there)
+                    if mg.strip() != got.strip() and not bad:
+                        chk.broke("correspondence model/implementation differs on %s '%s': model=%s impl=%s" % (fname, il, mg, got))
+                if exp is not None and mg is not None and mg.lstrip("-").isdigit() and val(int(mg)) != exp:
                     chk.broke("extracted model differs from the specification oracle on %s '%s': model=%s" % (fname, il, mg))
             elif kind == "pred":
                 a, b = meta
@@ -702,22 +722,24 @@ def main(tier, replay=None):
                 v, sz, s, r, x_, y_ = meta
                 bump("arr:%s:sz=%s" % (v, sz if sz < 3 else "n"))
                 chk.count((fname, il))
-                if mg is not None:
-                    ncorr += 1
-                    if mg.strip() != got.strip():
-                        chk.broke("correspondence model/implementation differs on %s '%s': model=%s impl=%s" % (fname, il, mg, got))
                 exp = arr_spec(P, val, v, s, r, x_, y_)
                 site = "GFqDom array forms (for (size_t i=sz; --i;))"
+                bad = None
                 if not got.startswith("R"):
+                    bad = True
                     chk.fail_input(site, "sz=0" if sz == 0 else "crash", dict(case, variant=v), "R " + " ".join(str(P.num(e)) for e in exp), got,
                                    "the call did not return (out-of-bounds accesses, child process killed)")
-                    continue
-                rr = [int(z) for z in got.split()[1:]]
-                bad = [i for i in range(sz) if val(rr[i]) != exp[i]] if len(rr) == sz else list(range(sz))
-                if bad:
-                    klass = "index0-skipped" if bad == [0] and rr[0] == r[0] else "element"
-                    chk.fail_input(site, klass, dict(case, variant=v), [P.num(e) for e in exp], got,
-                                   "destination[%s] is not the element-wise result" % bad)
+                else:
+                    rr = [int(z) for z in got.split()[1:]]
+                    bad = [i for i in range(sz) if val(rr[i]) != exp[i]] if len(rr) == sz else list(range(sz))
+                    if bad:
+                        klass = "index0-skipped" if bad == [0] and rr[0] == r[0] else "element"
+                        chk.fail_input(site, klass, dict(case, variant=v), [P.num(e) for e in exp], got,
+                                       "destination[%s] is not the element-wise result" % bad)
+                if mg is not None:
+                    ncorr += 1
+                    if mg.strip() != got.strip() and not bad:
+                        chk.broke("correspondence model/implementation differs on %s '%s': model=%s impl=%s" % (fname, il, mg, got))
             elif kind == "dot":
                 sz, x_, y_ = meta
                 bump("dot:sz=%s" % (sz if sz < 3 else "n"))
@@ -725,12 +747,13 @@ def main(tier, replay=None):
                 acc = P.zero
                 for u, w in zip(x_, y_):
                     acc = P.add(acc, P.mul(val(u), val(w)))
+                bad = not got.lstrip("-").isdigit() or val(int(got)) != acc
+                if bad:
+                    chk.fail_input("GFqDom::dotprod", "sz=%s" % (sz if sz < 3 else "n"), case, P.num(acc), got)
                 if mg is not None:
                     ncorr += 1
-                    if mg.strip() != got.strip():
+                    if mg.strip() != got.strip() and not bad:
                         chk.broke("correspondence model/implementation differs on %s '%s': model=%s impl=%s" % (fname, il, mg, got))
-                if not got.lstrip("-").isdigit() or val(int(got)) != acc:
-                    chk.fail_input("GFqDom::dotprod", "sz=%s" % (sz if sz < 3 else "n"), case, P.num(acc), got)
             elif kind == "assignarr":
                 sz, x_ = meta
                 chk.count((fname, il), nontrivial=False)
@@ -774,8 +797,8 @@ def main(tier, replay=None):
         chk.broken = chk.broken[:20] + [{"what": "... %d more" % (len(chk.broken) - 20), "detail": ""}]
     # 7. the other field classes (ran in the background)
     dist.update(dist_ext)
-    chk.cov["rule"] = ("every prime power q <= %d (both storage types for small q) + the fields of test-ffarith; per field: constants, "
-                       "defining polynomial irreducible (brute force), generator primitive (order via factorisation of q-1), three tables vs oracle and vs model, "
+    chk.cov["rule"] = ("every prime power q <= %d (thorough: all <= 4096, all proper powers <= 65536, 40 sampled primes above 4096; both storage types for small q) + the fields of test-ffarith + user-supplied moduli/generators; per field: constants, "
+                       "defining polynomial irreducible (brute force), generator primitive (order via factorisation of q-1), three tables vs oracle and vs model, tables_ok (verified checker) on the model tables, "
                        "every scalar call form on all elements/pairs (q<=64) or boundary+random operands, every array form with sz in {0,1,2,n}, dotprod, init/convert; "
                        "non-trivial = first operand non-zero") % limit
     chk.cov["traces_validated_against_impl"] = ncorr
@@ -942,10 +965,14 @@ def ext_part(chk, rng, tier, dist):
                     vs.append(m & (B - 1))
                     m >>= bits
                 L.append(("ginit %d" % d, "ginit", vs))
-    rc, out, err = vf.run_lines(h, "\n".join(x[0] for x in L) + "\n", timeout=900)
+    rc, out, err = vf.run_lines(h, "\n".join(x[0] for x in L) + "\n", timeout=(300 if tier == "quick" else 900))
     out = [o for o in out if not o.startswith("WARNING")]
     if rc != 0 or len(out) != len(L):
-        chk.broke("implementation harness c05_ext failed (rc=%s, %d/%d lines)" % (rc, len(out), len(L)), err[-2000:])
+        n = len(out)
+        fl = [x[0] for x in L[:n + 1] if x[1] in ("ext", "gext")]
+        chk.fail_input("Extension/GFqExt/GF2 (crash or hang inside the library)", "crash" if rc != 124 else "hang",
+                       {"field": fl[-1] if fl else None, "line": L[n][0] if n < len(L) else None},
+                       "an answer", "rc=%s after %d/%d lines" % (rc, n, len(L)), err[-500:])
         return
     P = None
     ctx = None
